@@ -54,14 +54,14 @@ Theorem C15_replace_spec_cells : forall kd m cs out, replace_spec kd m cs = Ok o
 Proof. exact replace_spec_cells. Qed.
 Print Assumptions C15_replace_spec_cells.
 
-(* the NumPy branch (Float / Int columns) pass by pass, for every key, value and column: TypeError for a key that
-   is no number (np.isnan), the exception of the NumPy store for a value that cannot be stored, otherwise the cells
-   designated by the key (NaN cells for a NaN key, cells equal to the key otherwise) hold the stored value *)
+(* the NumPy branch (Float / Int columns) pass by pass, for every key, value and column: no key raises (a key that
+   is no number equals no cell and leaves the column unchanged), a value NumPy cannot store raises the exception of
+   the store, otherwise the cells designated by the key hold the stored value; the designated cells are those of
+   the L0 spec (NaN cells for a NaN key, cells equal to the key otherwise) unless the key is a NaN that is not a
+   Python float (numpy.float32 NaN: compared with ==, designates nothing) *)
 Theorem C15_replace_numeric_pass : forall kd old new cs, numeric_kind kd = true ->
-  pass kd old new cs =
-  if is_number old
-  then bind (np_store kd new) (fun x => Ok (map (fun c => if key_hits kd old c then x else c) cs))
-  else Raise TypeError.
+  pass kd old new cs = bind (np_store kd new) (fun x => Ok (map (fun c => if numeric_hits old c then x else c) cs))
+  /\ (nan_key_ok old = true -> forall c, numeric_hits old c = key_hits kd old c).
 Proof. exact pass_numeric_exact_b. Qed.
 Print Assumptions C15_replace_numeric_pass.
 
@@ -137,5 +137,6 @@ Proof. split; vm_compute; reflexivity. Qed.
 Example C15_ex_numeric_pass :
   numeric_kind KFloat = true /\ numeric_kind KInt = true /\
   pass KFloat (PFloat nan) (PInt 5) [VFlt (FFin false 1 0); VFlt nan] = Ok [VFlt (FFin false 1 0); VFlt (round53 5)]
-  /\ pass KInt (PStr "text" None None) (PInt 1) [VInt 1] = Raise TypeError.
+  /\ pass KInt (PStr "text" None None) (PInt 1) [VInt 1] = Ok [VInt 1]
+  /\ nan_key_ok (PFloat nan) = true /\ nan_key_ok (PStr "text" None None) = true.
 Proof. repeat split; vm_compute; reflexivity. Qed.
